@@ -316,6 +316,9 @@ def t_scale_system(ctx, rng, drv_lines, keep):
                          finite_object=False if rng.random() < 0.7 else True, apertures=rng.random() < 0.5,
                          nsurf=rng.randint(1, 8))
     s = 2.0 ** rng.randint(-5, 5) if rng.random() < 0.6 else rng.uniform(0.01, 100)
+    if rng.random() < 0.2:
+        # a physical aperture on the image surface (the edge of the detector) or on the object surface
+        d['surfaces'][rng.choice([-1, -1, 0])]['aperture'] = {'r_max': lensgen.dyadic(rng, 1.0, 12.0, 3)}
     o1 = lensgen.build(d)
     o2 = lensgen.build(scaled_desc(d, s))
     case = {'desc': d, 'transform': 'scale_system', 's': s}
